@@ -104,6 +104,10 @@ func c09tierb(c *core.Ctx) {
 	}
 	r := c.R
 	hooksOff()
+	if r.Chance(1, 4) {
+		c09clearReuse(c)
+		return
+	}
 	km := &keyed{rw: r.Bool()}
 	if km.rw {
 		km.rwm = new(sync2.KeyedRWMutex[int])
@@ -291,6 +295,147 @@ func c09tierb(c *core.Ctx) {
 	}
 	if c.WantSample() {
 		c.Sample(map[string]any{"mode": "tierb", "type": kind, "keys": nk, "prefix": pre, "programs": fmt.Sprint(progsDesc), "events": events})
+	}
+}
+
+// c09clearReuse: ClearKey inside its covered use (nobody holds or awaits the key), but
+// from SEVERAL goroutines at once and concurrently with first uses of never-seen keys
+// (which rebuild the map's dirty half); afterwards, sequentially, every cleared key is
+// used again: while it is held, other keys are locked and released (promotions of the
+// dirty map) and a TryLockKey of the held key must fail.
+func c09clearReuse(c *core.Ctx) {
+	r := c.R
+	km := &keyed{rw: r.Bool()}
+	kind := "KeyedMutex"
+	if km.rw {
+		km.rwm = new(sync2.KeyedRWMutex[int])
+		kind = "KeyedRWMutex"
+	} else {
+		km.m = new(sync2.KeyedMutex[int])
+	}
+	na := r.Range(1, 2)
+	var pre []string
+	for k := 0; k < na; k++ {
+		for i := 0; i <= r.Intn(2); i++ {
+			kd := kLock
+			if km.rw && r.Bool() {
+				kd = kRLock
+			}
+			km.acquire(kd, k)
+			km.release(kd, k)
+			pre = append(pre, fmt.Sprintf("%s(%d)+unlock", kNames[kd], k))
+		}
+	}
+	nw := r.Range(3, 4)
+	fresh := 100
+	type cstep struct {
+		clear bool
+		key   int
+	}
+	progsDesc := make([][]cstep, nw)
+	for w := range progsDesc {
+		n := r.Range(1, 2)
+		for i := 0; i < n; i++ {
+			if r.Chance(3, 5) || w < 2 && i == 0 {
+				progsDesc[w] = append(progsDesc[w], cstep{true, r.Intn(na)})
+			} else {
+				k := fresh
+				if r.Chance(3, 4) {
+					fresh++
+				}
+				progsDesc[w] = append(progsDesc[w], cstep{false, k})
+			}
+		}
+	}
+	{
+		w := nw - 1
+		// at least one first use of a never-seen key
+		progsDesc[w][0] = cstep{false, fresh}
+		fresh++
+	}
+	s := sched.New(r.Fork(), r.Intn(3))
+	var events []string
+	hooksTierB(s)
+	defer hooksOff()
+	progs := make([]func(int), nw)
+	for w := range progs {
+		w := w
+		progs[w] = func(int) {
+			for _, st := range progsDesc[w] {
+				if st.clear {
+					km.clear(st.key)
+					events = append(events, fmt.Sprintf("w%d ClearKey(k%d)", w, st.key))
+					continue
+				}
+				km.acquire(kLock, st.key)
+				events = append(events, fmt.Sprintf("w%d LockKey(k%d)", w, st.key))
+				km.release(kLock, st.key)
+				events = append(events, fmt.Sprintf("w%d UnlockKey(k%d)", w, st.key))
+			}
+		}
+	}
+	s.Run(progs)
+	hooksOff()
+	c.Count("tierb_clear_reuse_schedules", 1)
+	c.Count("tierb_schedules", 1)
+	c.Count("tierb_steps", int64(s.Steps))
+	c.Distinct("tierb_distinct_schedules", s.Trace)
+	for p := range s.SwitchPairs {
+		c.Distinct("tierb_switch_site_pairs", uint64(p))
+	}
+	extra := map[string]any{"type": kind, "prefix": pre, "programs": fmt.Sprint(progsDesc), "events": events, "schedule_hash": s.Trace}
+	if s.Panic != nil {
+		c.Violate("clear-reuse:panic", fmt.Sprintf("panic under the serialized schedule: %v", s.Panic), extra)
+		return
+	}
+	if s.Deadlock {
+		c.Violate("clear-reuse:deadlock["+kind+"]", fmt.Sprintf("deadlock among ClearKey calls and lock/unlock pairs of distinct keys (sites %v)", s.BlockedAt), extra)
+		return
+	}
+	if s.Overrun {
+		c.Inconclusive("schedule exceeded the step bound")
+		return
+	}
+	// phase 2, sequential: reuse every cleared key
+	var post []string
+	extra["after"] = &post
+	for a := 0; a < na; a++ {
+		kd := kLock
+		if km.rw && r.Bool() {
+			kd = kRLock
+		}
+		km.acquire(kd, a)
+		post = append(post, fmt.Sprintf("%s(k%d)", kNames[kd], a))
+		for i, n := 0, r.Range(1, 4); i < n; i++ {
+			k := 100 + r.Intn(fresh-100+2)
+			km.acquire(kLock, k)
+			km.release(kLock, k)
+			post = append(post, fmt.Sprintf("LockKey(k%d)+unlock", k))
+		}
+		if km.acquire(kTryLock, a) {
+			c.Violate("clear-reuse:mutual-exclusion["+kind+"]", fmt.Sprintf("TryLockKey(k%d) succeeded while the key is held by %s(k%d); the key had been cleared (by concurrent ClearKey calls, nobody holding or awaiting it) and used again", a, kNames[kd], a), extra)
+			return
+		}
+		if kd == kRLock {
+			if !km.acquire(kTryRLock, a) {
+				c.Violate("clear-reuse:Try-fails["+kind+"]", fmt.Sprintf("TryRLockKey(k%d) failed while the key is only read-locked", a), extra)
+				return
+			}
+			km.release(kTryRLock, a)
+		}
+		km.release(kd, a)
+		if !km.acquire(kTryLock, a) {
+			c.Violate("clear-reuse:Try-fails["+kind+"]", fmt.Sprintf("TryLockKey(k%d) failed although the key had just been released and nobody else uses it", a), extra)
+			return
+		}
+		km.release(kTryLock, a)
+		c.Count("tierb_cleared_keys_reused", 1)
+	}
+	if s.Switches >= 1 {
+		c.NonTrivial(s.Trace)
+	}
+	if c.WantSample() {
+		c.Sample(map[string]any{"mode": "tierb/clear-reuse", "type": kind, "prefix": pre, "programs": fmt.Sprint(progsDesc), "events": events, "after": post})
 	}
 }
 
